@@ -275,10 +275,7 @@ def r07_5(chk):
     chk.ob('R07.5', ok, SPARSE, 'solve', 'reduce, solve, scatter through the same index set', expected=want, got=src,
            sample='solve: ' + '; '.join(src))
     # remove_null_cols: used_cols = unique(cols) of the first matrix; every matrix reduced by rows and columns
-    rn = m.function('remove_null_cols')
-    txt = norm(rn)
-    ok = 'used_cols=np.unique(cols)' in txt and 'm=m[used_cols,:]' in txt and 'm=m[:,used_cols]' in txt and 'args.append(used_cols)' in txt
-    chk.ob('R07.5', ok, SPARSE, 'remove_null_cols', 'same index set for rows and columns of every matrix, returned last')
+    pyrules.check_remove_null_cols(chk, 'R07.5')
     for rel, fname, getter in (('compmech/analysis/static.py', 'static', lambda mod: mod.function('static')),):
         mod = module(rel)
         f = getter(mod)
